@@ -75,13 +75,35 @@ StepL == /\ e.ev = "L"
                \/ v # "ok" /\ PrintT(<<IF v = "open" THEN "OPEN" ELSE "REJECT", l, e.prop, v>>)
          /\ UNCHANGED <<graphs, content>>
 
+\* ---- index dumps (Layer B binding: memory.VerifDumpIndexes, build tag verif) ----------------------
+\* e.idx = sequence of [n |-> index name, bs |-> sequence of buckets, each a sequence of triple ids].
+\* Every secondary index must be a projection of the master index: no triple that is not stored, the
+\* non-empty buckets are exactly the classes of the stored triples under the index's key, and the
+\* SP/PO/SO maps hold no empty bucket.  Keys are not interpreted (no UUID of the code under test).
+Key(n, t) == CASE n = "S" -> <<TS[t].s>> [] n = "P" -> <<PR[TS[t].p].id>> [] n = "O" -> <<TS[t].o>>
+               [] n = "SP" -> <<TS[t].s, PR[TS[t].p].id>> [] n = "PO" -> <<PR[TS[t].p].id, TS[t].o>>
+               [] n = "SO" -> <<TS[t].s, TS[t].o>> [] OTHER -> <<0>>
+BucketsOK(n, bs, C) ==
+    LET sets == {Range(bs[i]) : i \in DOMAIN bs}
+        nonEmpty == sets \ {{}}
+    IN  /\ \A i \in DOMAIN bs : Len(bs[i]) = Cardinality(Range(bs[i]))
+        /\ UNION sets \subseteq C
+        /\ nonEmpty = {{t2 \in C : Key(n, t2) = Key(n, t)} : t \in C}
+        /\ Cardinality({i \in DOMAIN bs : bs[i] # <<>>}) = Cardinality(nonEmpty)   \* no key twice
+        /\ (n \in {"SP", "PO", "SO"} => {} \notin sets)
+StepD == /\ e.ev = "D"
+         /\ LET bad == {i \in DOMAIN e.idx : ~BucketsOK(e.idx[i].n, e.idx[i].bs, content[e.g])} IN
+               \/ bad = {}
+               \/ bad # {} /\ PrintT(<<"REJECT", l, "C02", "index-not-a-projection-" \o e.idx[CHOOSE i \in bad : TRUE].n>>)
+         /\ UNCHANGED <<graphs, content>>
+
 TraceInit == /\ l = 1
              /\ graphs = {}
              /\ content = [n \in NameSet |-> {}]
              /\ last = [op |-> "Init", g |-> "", b |-> <<>>, ok |-> TRUE]
 
 TraceNext == /\ l <= Len(Trace)
-             /\ (StepOp \/ StepAnchor \/ StepL)
+             /\ (StepOp \/ StepAnchor \/ StepL \/ StepD)
              /\ l' = l + 1
              /\ UNCHANGED last
 
